@@ -452,6 +452,8 @@ def _gate_success(B, bb, t):
                 sw = B.term(y)
                 if sw.get("k") == "switch" and sw["discr"].get("k") in ("copy", "move") and sw["discr"]["p"]["l"] == x["p"]["l"]:
                     ok_arm = [b2 for v, b2 in sw["targets"] if v == 0]
+                    if not ok_arm and [v for v, _ in sw["targets"]] == [1]:
+                        ok_arm = [sw["otherwise"]]      # `if let Err(e) = check { return Err(..) }`: everything else is the Ok arm
                     if ok_arm:
                         return ok_arm[0]
                     break
